@@ -426,6 +426,18 @@ class Executor(ExprMixin):
                 s2, L = self.new_list(st, [])
                 return [(s2, L)]
             return self.copy_list(st, args[0])
+        if cname == 'tuple' and len(args) == 1 and not isinstance(args[0], PyTuple):
+            x = self.need_term(args[0])
+
+            def tp(s):
+                t = V.Tuple(fresh('tid', T.I))
+                k = fresh('k', T.I)
+                return [(s.add(ln(t) == ln(x), ln(x) >= 0,
+                               z3.ForAll([k], z3.Implies(z3.And(0 <= k, k < ln(x)), at(t, k) == at(x, k)),
+                                         patterns=[at(t, k)])), t)]
+            return self.cases(st, [(z3.Or(is_('List', x), is_('Tuple', x)), tp),
+                                   (z3.Not(z3.Or(is_('List', x), is_('Tuple', x))),
+                                    lambda s: self._not_modelled(s, 'tuple() of a non-sequence'))])
         if cname in self.reg.classes and self.reg.classes[cname]['fields']:
             info = self.reg.classes[cname]
             fields = list(info['fields'])
@@ -1174,11 +1186,24 @@ class Executor(ExprMixin):
         raise NotFormed('class definition inside a function')
 
     def s_Try(self, n, st):
-        if n.finalbody or n.orelse:
-            raise NotFormed('try/finally or try/else')
+        out = self._try_handlers(n, st)
+        if not n.finalbody:
+            return out
+        # finally: the final block runs after every way of leaving the statement; when it falls through, the original
+        # way of leaving (fall / return value / break / continue / exception) is resumed, otherwise its own leave wins
+        res = []
+        for fl in out:
+            for f2 in self.ex_block(n.finalbody, fl.st):
+                res.append(Flow(fl.kind, f2.st, fl.val) if f2.kind == 'fall' else f2)
+        return res
+
+    def _try_handlers(self, n, st):
         flows = self.ex_block(n.body, st)
         out = []
         for fl in flows:
+            if fl.kind == 'fall' and n.orelse:
+                out.extend(self.ex_block(n.orelse, fl.st))      # exceptions of the else block are not handled here
+                continue
             if fl.kind != 'exc':
                 out.append(fl)
                 continue
